@@ -88,7 +88,8 @@ def vec_flags(src, vec128="-msse2", vec256="-mavx2"):
 class LibCfg:
     """One build configuration of the library."""
     def __init__(self, name="shipped", cc="gcc", opt="-O3", std="-std=c99", cflags=(), defs=(),
-                 vec128="-msse2", vec256="-mavx2", prefix=None, alloc_redirect=False, guard=True):
+                 vec128="-msse2", vec256="-mavx2", prefix=None, alloc_redirect=False, guard=True, make=False):
+        self.make = make          # True: built by the repository's own Makefile (build_make_lib), all other fields unused
         self.name = name; self.cc = cc; self.opt = opt; self.std = std
         self.cflags = list(cflags); self.defs = list(defs)
         self.vec128 = vec128; self.vec256 = vec256
@@ -96,13 +97,15 @@ class LibCfg:
 
     def key(self):
         return json.dumps([self.cc, self.opt, self.std, self.cflags, self.defs, self.vec128,
-                           self.vec256, self.prefix, self.alloc_redirect, self.guard])
+                           self.vec256, self.prefix, self.alloc_redirect, self.guard] + (["make"] if self.make else []))
 
 
 def build_lib(cfg, quiet=True):
     """Compile /repo/src/*.c for cfg.  Returns the path of a single relocatable object
     (lib.o) containing the whole library (symbols optionally prefixed / allocator
     redirected)."""
+    if cfg.make:
+        return build_make_lib(alloc_redirect=cfg.alloc_redirect)
     h = sha_files(repo_lib_files(), cfg.key())
     out = os.path.join(BUILD, "lib", h)
     final = os.path.join(out, "lib.o")
@@ -154,9 +157,59 @@ def build_lib(cfg, quiet=True):
     return final
 
 
+def build_make_lib(pic=False, shared=False, alloc_redirect=False):
+    """The library exactly as the repository's own build system produces it: src/, include/ and options.mak are
+    copied to a scratch directory (never building inside the repository) and `make -C src libskinny.a` runs there
+    with CFLAGS=-DSKINNY_C_VERIF (src/Makefile appends to CFLAGS).  Returns lib.o (ld -r over the whole archive)
+    or, with shared=True, libskinny.so.  Whatever the Makefile and options.mak say - compiler flags, per-file
+    SIMD flags, the object list - is what gets tested."""
+    files = repo_lib_files() + [os.path.join(REPO, "src", "Makefile"), os.path.join(REPO, "options.mak")]
+    h = sha_files(files, "make:%d:%d:%d" % (pic, shared, alloc_redirect))
+    out = os.path.join(BUILD, "lib", h)
+    final = os.path.join(out, "libskinny.so" if shared else "lib.o")
+    if os.path.exists(final):
+        os.utime(out, None)
+        return final
+    tmp = tempfile.mkdtemp(prefix="mk-", dir=_mk(os.path.join(BUILD, "tmp")))
+    try:
+        for d in ("src", "include"):
+            shutil.copytree(os.path.join(REPO, d), os.path.join(tmp, d), ignore=shutil.ignore_patterns("*.o", "*.a"))
+        shutil.copy(os.path.join(REPO, "options.mak"), tmp)
+        env = dict(os.environ, CFLAGS="-D" + GUARD + (" -fPIC" if pic or shared else ""))
+        env.pop("MAKEFLAGS", None)
+        rc, outp = sh(["make", "-C", os.path.join(tmp, "src"), "-j", str(NCPU), "libskinny.a"], env=env)
+        if rc != 0:
+            raise InfraError("the repository's own build (make -C src) fails:\n" + outp[-3000:])
+        arch = os.path.join(tmp, "src", "libskinny.a")
+        _mk(out)
+        if shared:
+            rc, outp = sh(["gcc", "-shared", "-o", os.path.join(tmp, "libskinny.so"), "-Wl,--whole-archive", arch, "-Wl,--no-whole-archive"])
+            if rc != 0:
+                raise InfraError("linking libskinny.so from the make build failed: " + outp[-2000:])
+            os.replace(os.path.join(tmp, "libskinny.so"), final)
+        else:
+            comb = os.path.join(tmp, "comb.o")
+            rc, outp = sh(["ld", "-r", "-o", comb, "--whole-archive", arch])
+            if rc != 0:
+                raise InfraError("ld -r over libskinny.a failed: " + outp[-2000:])
+            if alloc_redirect:
+                mapf = os.path.join(tmp, "syms.map")
+                with open(mapf, "w") as f:
+                    f.write("calloc skv_calloc\nmalloc skv_malloc\nfree skv_free\nrealloc skv_realloc\n")
+                rc, outp = sh(["objcopy", "--redefine-syms=" + mapf, comb])
+                if rc != 0:
+                    raise InfraError("objcopy failed: " + outp[-2000:])
+            os.replace(comb, final)
+    finally:
+        shutil.rmtree(tmp, ignore_errors=True)
+    return final
+
+
 def build_shared(cfg):
     """Compile /repo/src/*.c for cfg as position-independent code into one shared object (loaded with
     dlopen/RTLD_LOCAL by the multi-configuration harness)."""
+    if cfg.make:
+        return build_make_lib(shared=True)
     h = sha_files(repo_lib_files(), "shared:" + cfg.key())
     out = os.path.join(BUILD, "lib", h)
     final = os.path.join(out, "libskinny.so")
@@ -298,8 +351,11 @@ def known_findings():
 def write_evidence(pid, tier, seed, level, coverage, assumptions, wall_s, violations):
     ev = dict(property_id=pid, tier=tier, seed=int(seed), level=level, coverage=coverage,
               assumptions=assumptions, wall_s=round(wall_s, 2), violations=int(violations))
-    _mk(os.path.join(VERIF, "evidence"))
-    p = os.path.join(VERIF, "evidence", pid + ".json")
+    # evidence/ describes runs against /repo itself; a run redirected to a scratch tree (VERIF_REPO: mutants, seeded
+    # changes) leaves its evidence under build/ instead
+    edir = os.path.join(VERIF, "evidence") if not os.environ.get("VERIF_REPO") else os.path.join(VERIF, "build", "scratch-evidence")
+    _mk(edir)
+    p = os.path.join(edir, pid + ".json")
     tmp = p + ".tmp"
     with open(tmp, "w") as f:
         json.dump(ev, f, indent=1, sort_keys=True)
